@@ -66,6 +66,9 @@ func composeState(r *gen.Rand, w *world, force map[string]string) (state []gmsl.
 	if r.Chance(0.5) {
 		state = append(state, w.tpi)
 	}
+	if r.Chance(0.12) {
+		state = append(state, w.tpiNoTok)
+	}
 	return
 }
 
@@ -192,6 +195,10 @@ func genAuthCase(r *gen.Rand, w *world) (*authCase, error) {
 		if r.Chance(0.9) {
 			c.Set("join_authorised_via_users_server", ref.S(via))
 		}
+		if r.Chance(0.06) {
+			// a restricted join that also claims a third-party invite, with the empty token
+			c.Set("third_party_invite", w.signedTPI(sender, "", true))
+		}
 		ac.ev, err = w.build("m.room.member", strp(sender), sender, c, nil, "")
 	case "knock":
 		ac.ev, err = w.build("m.room.member", strp(sender), sender, ref.O("membership", ref.S("knock")), nil, "")
@@ -232,8 +239,14 @@ func genAuthCase(r *gen.Rand, w *world) (*authCase, error) {
 		tok := "tok1"
 		if r.Chance(0.15) {
 			tok = "unknown-token"
+		} else if r.Chance(0.12) {
+			tok = "" // the room may hold a third-party-invite event under that state key
 		}
 		c := ref.O("membership", ref.S("invite"), "third_party_invite", w.signedTPI(mx, tok, r.Chance(0.7)))
+		if r.Chance(0.12) {
+			// the property is there, and null: an invite that claims to come from a third-party invite and carries nothing
+			c.Set("third_party_invite", ref.NullV())
+		}
 		ac.ev, err = w.build("m.room.member", strp(target), sender, c, nil, "")
 	case "first-join":
 		who := authUsers[0]
